@@ -6,7 +6,7 @@ import kv, gen
 
 def scenarios(rng, tier):
     S = []
-    n = 16 if tier == "quick" else 160
+    n = 16 if tier == "quick" else 100
     for i in range(n):
         kind = "dna" if i % 4 else "protein"
         alpha = gen.DNA if kind == "dna" else gen.AA
